@@ -8,11 +8,12 @@ CONSTANTS
   InitMax = 5
   AllowSlow = TRUE
   ParamKinds = {}
-  Disabled = {"UserStats"}
+  Disabled = {"UserStats", "ExcludedPhrases"}
   MaxEvents = 5
   Askers = {"me", "u1"}
-  Queries = {"qhit", "qmiss"}
+  Queries = {"qhit", "qgone"}
   Hits <- MC_Hits
+  HitsX <- MC_HitsX
   MaxSearches = 1
   FixReannounce = TRUE
   FixChildParent = TRUE
